@@ -711,6 +711,10 @@ func (fg *FnGen) evalCall(x *CCall, env *CEnv) *Val {
 			ln := fg.get(env.st, mc+"!len", ArrSort(SInt))
 			return &Val{T: tInt, L: []Term{Select(ln, v.one())}}
 		}
+		if len(v.L) == 4 && v.Loc == nil {
+			// well-formed slice header in any state: 0 <= len <= cap <= 2^50
+			fg.assume(And(Le(IntLit(0), v.L[2]), Le(v.L[2], v.L[3]), Le(v.L[3], maxLenTerm)))
+		}
 		return &Val{T: tInt, L: []Term{fg.lenOf(v)}}
 	case "cap":
 		v := fg.evalC(x.Args[0], env)
